@@ -613,7 +613,14 @@ class StoreDoubleWithKnownOffset(RewritePattern):
 class AdditionOfSameVariablesToMultiplyByTwo(RewritePattern):
     @op_type_rewrite_pattern
     def match_and_rewrite(self, op: riscv.AddOp, rewriter: PatternRewriter) -> None:
-        if op.rs1 == op.rs2:
+        # The constant needs a new register: do not introduce an unallocated value
+        # among operations whose registers have already been allocated.
+        rs1_type = op.rs1.type
+        if op.rs1 == op.rs2 and not (
+            op.rd.type.is_allocated
+            and isinstance(rs1_type, riscv.IntRegisterType)
+            and rs1_type.is_allocated
+        ):
             rd = op.rd.type
             rewriter.replace(
                 op,
